@@ -169,6 +169,28 @@ def args_records():
     rec("Track.from_chords(nested list)", lambda xs: Track().from_chords(xs, 1), [["C", ["Am", ["Dm", "G7"]], None]])
     rec("Instrument.set_range(list of names)", lambda xs: Instrument().set_range(xs), [["C-2", "C-6"]])
     rec("Instrument.can_play_notes(list)", lambda xs: Instrument().can_play_notes(xs), [["C", "E"]])
+    # the sequencer, the MIDI writer and the exporters take lists too (channels, tracks, bars, chord lists, note lists)
+    from mingus.midi.sequencer import Sequencer
+    class _Quiet(Sequencer):
+        def sleep(self, seconds):
+            pass
+    def _comp(n):
+        c = Composition()
+        for i in range(n):
+            t = Track(); t.add_notes("C", 4); t.add_notes(None, 4); t.add_notes(["E", "G"], 2); c.add_track(t)
+        return c
+    for nch in ([9], [1, 2], [1, 2, 3], []):
+        rec("Sequencer.play_Composition(channels) %d of 2" % len(nch), lambda xs: _Quiet().play_Composition(_comp(2), xs), [list(nch)])
+        rec("Sequencer.play_Tracks(tracks, channels) %d of 2" % len(nch), lambda ts, xs: _Quiet().play_Tracks(ts, xs), [_comp(2).tracks, list(nch)])
+        rec("Sequencer.play_Bars(bars, channels) %d of 2" % len(nch), lambda bs, xs: _Quiet().play_Bars(bs, xs), [[t.bars[0] for t in _comp(2).tracks], list(nch)])
+    from mingus.extra import tunings as _tun
+    g = _tun.get_tuning("Guitar", "Standard")
+    rec("StringTuning.find_fingering(list)", lambda xs: g.find_fingering(xs), [["E-3", "B-3", "E-4"]])
+    rec("StringTuning.find_chord_fingerings(list)", lambda xs: g.find_chord_fingerings(xs), [["C", "E", "G"]])
+    rec("StringTuning.frets_to_NoteContainer(list)", lambda xs: g.frets_to_NoteContainer(xs), [[0, 2, 2, 1, 0, 0]])
+    rec("chords.determine(list, shorthand, no_inversion)", lambda xs: __import__("mingus.core.chords", fromlist=["x"]).determine(xs, True, True), [["C", "E", "G", "B"]])
+    rec("chords.determine(list, no_polychords)", lambda xs: __import__("mingus.core.chords", fromlist=["x"]).determine(xs, False, False, True), [["C", "E", "G", "B", "D"]])
+    rec("progressions.substitute(list, depth)", lambda xs: __import__("mingus.core.progressions", fromlist=["x"]).substitute(xs, 0, 2), [["I", "IV", "V", "I"]])
     return R
 
 
